@@ -964,6 +964,20 @@ Proof.
   destruct out as [o|e]; [|discriminate]. exists o, tr. auto.
 Qed.
 
+(* passing safe_to_import (in any of its shapes) never stops Delta's own dumps from loading *)
+Definition with_allow (al : list pystr) (w : world) : world :=
+  mkWorld al (lookup w) (call_ok w) (build_ok w) (ext_cache0 w) (ext_registry w).
+
+Theorem own_dumps_load_any_safe : forall (a : safe_arg) d, wfp d = true -> types_default_b d = true ->
+  load (with_allow (effective_allow a) default_world) (enc_prog d) = Some d.
+Proof.
+  intros a d Hw Ht. apply pickle_roundtrip; [constructor; intros; reflexivity | | exact Hw].
+  intros m n Hin. pose proof (types_default_ok d Ht m n Hin) as H.
+  apply find_class_resolved in H. destruct H as [Ha Hl].
+  apply (proj2 (find_class_exact (with_allow (effective_allow a) default_world) m n) GType).
+  split; [|exact Hl]. cbn [allow with_allow]. apply effective_allow_spec. left. exact Ha.
+Qed.
+
 (* whatever a Delta does is a function of its payload (and constructor flags):
    the reloaded delta does the same on every base *)
 Theorem same_behaviour : forall (B : Type) (behaviour : pv -> B) w d,
